@@ -1042,6 +1042,14 @@ def rule_r20(prog, res):
     res.floor('R20', 'zone attachments of naive values', len(reps), 1)
 
 
+def rule_r21(prog, res):
+    from . import c06
+    from ..report import Result
+    res.share('R21', 'the binary writer resolves the encoding in the order the '
+              'reader and the schema use: class attribute first (C06-R6)',
+              'C06', c06.rule_r6, prog, Result)
+
+
 def run(prog, res, tier):
     res.run_rule(rule_r1, prog, res)
     res.run_rule(rule_r2_r7, prog, res, tier)
@@ -1062,6 +1070,7 @@ def run(prog, res, tier):
     res.run_rule(rule_r18, prog, res)
     res.run_rule(rule_r19, prog, res)
     res.run_rule(rule_r20, prog, res)
+    res.run_rule(rule_r21, prog, res)
 
 
 _I = 'spyne/protocol/_inbase.py'
